@@ -356,6 +356,47 @@ def filtOpP (p : Params) (back : Bool) (D x : List GRat) : List Fft.PSum :=
            else filterP p (pKerF My) (pKerF Mx) (pKerB My) (pKerB Mx) sc Ds xs
   (List.range p.ny).flatMap fun iy => (List.range p.nx).map fun ix => r iy ix
 
+/-! ### the pipeline with a matrix-valued transfer function (`field_dot(tf, ·)` between the transforms) -/
+
+section pipelineM
+variable {C : Type} [Zero C] [Add C] [Mul C] {n : Nat}
+
+/-- `FourierFilter._operation` with a tensor transfer function on a vector field: component `t` of
+`crop (scale · ifftn (field_dot(D, fftn (pad x))))`; `D py px` is the matrix at internal sample `(py,px)` (FFT layout). -/
+def filterMN (My Mx : Nat) (kFy kFx kBy kBx : Int → C) (scale : C) (sy sx ny nx : Nat)
+    (D : Nat → Nat → Fin n → Fin n → C) (x : Fin n → Nat → Nat → C) : Fin n → Nat → Nat → C :=
+  fun t => cropAt sy sx fun qy qx => scale * Fft.dft2 My Mx kBy kBx
+    (fun py px => matVec (D py px) (fun j => Fft.dft2 My Mx kFy kFx (padAt sy sx ny nx (x j)) py px) t) qy qx
+
+/-- `.backward`: the same with `field_conjugate_transpose(D)`. -/
+def filterMNBackward (cj : C → C) (My Mx : Nat) (kFy kFx kBy kBx : Int → C) (scale : C) (sy sx ny nx : Nat)
+    (D : Nat → Nat → Fin n → Fin n → C) (x : Fin n → Nat → Nat → C) : Fin n → Nat → Nat → C :=
+  filterMN My Mx kFy kFx kBy kBx scale sy sx ny nx (fun py px => conjT cj (D py px)) x
+
+def filterMP (p : Params) (kFy kFx kBy kBx : Int → C) (scale : C)
+    (D : Nat → Nat → Fin n → Fin n → C) (x : Fin n → Nat → Nat → C) : Fin n → Nat → Nat → C :=
+  filterMN (my p) (mx p) kFy kFx kBy kBx scale (cutStart (my p) p.ny) (cutStart (mx p) p.nx) p.ny p.nx D x
+
+def filterMPBackward (cj : C → C) (p : Params) (kFy kFx kBy kBx : Int → C) (scale : C)
+    (D : Nat → Nat → Fin n → Fin n → C) (x : Fin n → Nat → Nat → C) : Fin n → Nat → Nat → C :=
+  filterMNBackward cj (my p) (mx p) kFy kFx kBy kBx scale (cutStart (my p) p.ny) (cutStart (mx p) p.nx) p.ny p.nx D x
+
+end pipelineM
+
+/-- What the driver op `filtmp` computes: `FourierFilter(grid, D, q).forward(x)` / `.backward(x)` for an `n×n` matrix
+transfer function `D` (centred; list index `(i·n + j)·My·Mx + pixel`) and a vector field `x` (list index
+`t·ny·nx + pixel`), on formal phase sums; output index `t·ny·nx + pixel`. -/
+def filtMOpP (p : Params) (n : Nat) (back : Bool) (D x : List GRat) : List Fft.PSum :=
+  let My := my p
+  let Mx := mx p
+  let sc := Fft.PSum.ofRat (1 / ((My * Mx : Nat) : Rat))
+  let Dc : Nat → Nat → Fin n → Fin n → Fft.PSum := fun a b i j => psumOfGRat (D.getD ((i.val * n + j.val) * (My * Mx) + (a * Mx + b)) 0)
+  let Ds : Nat → Nat → Fin n → Fin n → Fft.PSum := fun qy qx => Dc (ifftshiftIdx My qy) (ifftshiftIdx Mx qx)
+  let xs : Fin n → Nat → Nat → Fft.PSum := fun t a b => psumOfGRat (x.getD (t.val * (p.ny * p.nx) + (a * p.nx + b)) 0)
+  let r := if back then filterMPBackward psumConj p (pKerF My) (pKerF Mx) (pKerB My) (pKerB Mx) sc Ds xs
+           else filterMP p (pKerF My) (pKerF Mx) (pKerB My) (pKerB Mx) sc Ds xs
+  (List.finRange n).flatMap fun t => (List.range p.ny).flatMap fun iy => (List.range p.nx).map fun ix => r t iy ix
+
 /-! ### One propagator object used repeatedly: the setters between calls
 
 `distance`, `num_oversampling`, `zero_padding`, `refractive_index` have setters that clear the instance
